@@ -158,6 +158,14 @@ class IntegerPoint(PointBase):
         # Provide a nice way to use the string self.value in calculations.
         return int(self.value)
 
+    def __hash__(self) -> int:
+        # Points are compared as integers ("01" == "1"), so equal points
+        # must hash equal whether or not they have been standardised.
+        try:
+            return hash(int(self))
+        except ValueError:
+            return hash(self.value)
+
 
 class IntegerInterval(IntervalBase):
 
